@@ -1216,7 +1216,7 @@ class HistogramBase(abc.ABC):
             self.errors2 = self.errors2 / other / other
             self._missed /= other
             if hasattr(self, "_stats"):
-                self._stats *= 1 / float(other)
+                self._stats = self._stats / other
         elif config.free_arithmetics:  # Treat other as array-like
             self._coerce_dtype(np.float64)
             array = np.asarray(other)
